@@ -80,10 +80,15 @@ func (c *caseGen) rootOf(v string) string {
 	return v
 }
 
-// pick2 returns two variables holding DIFFERENT SSA values: passing one value at two argument
-// positions of a call is finding F18 (only the first argument node gets the in-edge).
+// pick2 returns two variables for a two-argument use. Since /repo commit e3a7fa7 (F18 repaired: every
+// argument position holding a value gets the in-edge) one value may be passed at both positions: that
+// is generated on purpose in a quarter of the cases; otherwise two different SSA values are chosen.
 func (c *caseGen) pick2() (string, string) {
 	a := c.pick()
+	if c.p.r.Intn(4) == 0 {
+		c.p.feats["same-value-twice"]++
+		return a, a
+	}
 	for try := 0; try < 8; try++ {
 		b := c.pick()
 		if c.rootOf(b) != c.rootOf(a) {
@@ -119,12 +124,8 @@ var opNames = []string{
 	"src", "cat", "id", "cat2", "pick", "tuple", "nested", "rec", "field", "method", "iface", "ifaceval",
 	"global", "globalfn", "cloread", "cloparam", "clowrite", "funcval", "apply", "map", "slice", "chan",
 	"ptrparam", "phi", "loop", "constarg", "deferres", "sinkhelper", "cloretclo", "field2", "retstruct",
-	"sinkhelper2", "sinkclosure", "globalfn2", "boundmethod",
+	"sinkhelper2", "sinkclosure", "globalfn2", "boundmethod", "boundsink", "globallazy", "globalmulti",
 }
-
-// opt-in operations (C03_OPS): shapes that hit a recorded finding on the unchanged tree.
-//   boundsink: backtrace point in a method reached through two method values -> F15b
-var optInOps = []string{"boundsink"}
 
 func (c *caseGen) op(name string) {
 	p := c.p
@@ -295,6 +296,25 @@ func (c *caseGen) op(name string) {
 		c.emit("%s()", f2)
 		c.emit("%s := %s + %s", v, a, b)
 		p.sinkOps[p.nsink] = append([]string(nil), c.ops...)
+	case "globallazy":
+		// a global with TWO writer functions: lazily initialised in its getter (on the flow path) and
+		// overridden by a setter that is called only for its side effect. Under on-demand summarisation
+		// the setter is summarised only because the global READ asks for every reachable writer.
+		g := "g" + p.helper()
+		k := p.newSrc()
+		fmt.Fprintf(&p.top, "var %s string\n\nfunc get%s() string {\n\tif %s == \"\" {\n\t\t%s = src%d()\n\t}\n\treturn %s\n}\n\nfunc set%s(p string) { %s = p }\n", g, g, g, g, k, g, g, g)
+		c.emit("%s = \"\"", g)
+		c.emit("if cond(%d) {\n\t\tset%s(%s)\n\t}", p.condBit(), g, c.pick())
+		c.emit("%s := get%s()", v, g)
+	case "globalmulti":
+		// three writers in three functions, none of them on the flow path except through the global
+		g := "g" + p.helper()
+		fmt.Fprintf(&p.top, "var %s string\n\nfunc seta%s(p string) { %s = p }\n\nfunc setb%s(p string) { %s = p + \"b\" }\n\nfunc setc%s(p *S) { %s = p.f }\n\nfunc get%s() string { return %s }\n", g, g, g, g, g, g, g, g, g)
+		a, b := c.pick2()
+		sv := c.fresh()
+		c.emit("%s := &S{f: %s}", sv, c.pick())
+		c.emit("switch {\n\tcase cond(%d):\n\t\tseta%s(%s)\n\tcase cond(%d):\n\t\tsetb%s(%s)\n\tdefault:\n\t\tsetc%s(%s)\n\t}", p.condBit(), g, a, p.condBit(), g, b, g, sv)
+		c.emit("%s := get%s()", v, g)
 	case "sinkhelper2":
 		// one helper holding the backtrace point, called from two sites with different data: without
 		// calling context the parameter must flow back to ALL call sites
@@ -327,6 +347,12 @@ func (c *caseGen) op(name string) {
 	c.vars = append(c.vars, v)
 }
 
+func (c *caseGen) sinkLast() {
+	c.p.nsink++
+	c.emit("sink(%d, %s)", c.p.nsink, c.vars[len(c.vars)-1])
+	c.p.sinkOps[c.p.nsink] = append([]string(nil), c.ops...)
+}
+
 func (c *caseGen) sink() {
 	c.p.nsink++
 	c.emit("sink(%d, %s)", c.p.nsink, c.pick())
@@ -342,6 +368,10 @@ func genProgram(r *rand.Rand, ncases int, allowed []string, maxOps int) (src str
 		if r.Intn(3) > 0 {
 			c.op("src")
 		}
+		// systematic part: case i exercises operation i (mod #ops) first and sinks its result at
+		// once, so every operation is sunk directly at least once per package
+		c.op(allowed[i%len(allowed)])
+		c.sinkLast()
 		n := 1 + r.Intn(maxOps)
 		for j := 0; j < n; j++ {
 			c.op(allowed[r.Intn(len(allowed))])
